@@ -8,6 +8,11 @@ from .. import core, stage, trees as T
 PID = "C14"
 
 
+import datetime as _dt
+
+OTHER_TZ = _dt.timezone(_dt.timedelta(hours=5, minutes=30))
+
+
 def triples(tier):
     base = ["E", "2", "M"]
     out = [tuple(t) for t in itertools.product(base, repeat=3)]
@@ -82,6 +87,7 @@ def run_tree(args):
         for s in spec[:1]:
             _, dirs = T.channel_files(s[1], s[2])
             sub_paths += [os.path.join(top, s[0], d) for d in dirs[:2]]
+            sub_paths.append(os.path.join(top, s[0], T.subdir_name(T.T0) + ".bak"))
 
         def one(path, kw, label):
             part["evaluations"] += 1
@@ -90,6 +96,14 @@ def run_tree(args):
             okw["starttime"] = T.from_ms(kw["starttime"]) if kw.get("starttime") is not None else None
             okw["endtime"] = T.from_ms(kw["endtime"]) if kw.get("endtime") is not None else None
             ckw = dict(okw, reverse=kw.get("reverse", False))
+            # the same instants expressed as naive-UTC or as aware datetimes in another zone
+            form = (part["evaluations"] + len(label)) % 3
+            for key_ in ("starttime", "endtime"):
+                if ckw[key_] is not None:
+                    if form == 1:
+                        ckw[key_] = ckw[key_].replace(tzinfo=None)
+                    elif form == 2:
+                        ckw[key_] = ckw[key_].astimezone(OTHER_TZ)
             try:
                 got = drf.lsdrf(path, **ckw)
             except Exception as e:  # noqa: BLE001
